@@ -189,8 +189,29 @@ func c15Shape(v2, v3 resp.Value, path string) string {
 	return ""
 }
 
+// names that must come through every structured reply unchanged under both protocols (format verbs, line breaks, the
+// type bytes of the protocol, the empty string, binary)
+var c15Names = []string{"100%", "path%20name", "%s%d%v", "%!(NOVERB)", "a\r\nb", "+OK", "$5", "*1", "%2", "~1", ",1.5", "", "\x00\xff", "_", "#t", "plain"}
+
 func c15Extra(rng *rand.Rand) []string {
-	switch rng.Intn(30) {
+	nm := func() string { return pick(rng, c15Names) }
+	switch rng.Intn(38) {
+	case 30:
+		return []string{"HSET", "hn", nm(), nm(), nm(), "v"}
+	case 31:
+		return []string{pick(rng, []string{"HGETALL", "HKEYS", "HVALS"}), "hn"}
+	case 32:
+		return []string{"HRANDFIELD", "hn", pick(rng, []string{"3", "-4"}), "WITHVALUES"}
+	case 33:
+		return []string{"SADD", "sn", nm(), nm()}
+	case 34:
+		return []string{pick(rng, []string{"SMEMBERS", "SRANDMEMBER"}), "sn"}
+	case 35:
+		return []string{"SET", nm(), nm()}
+	case 36:
+		return []string{pick(rng, []string{"KEYS", "SCAN"}), pick(rng, []string{"*", "0"})}
+	case 37:
+		return []string{"RPUSH", "ln", nm(), nm()}
 	case 0:
 		return []string{"CLIENT", "INFO"}
 	case 1:
